@@ -28,4 +28,14 @@ CHECKS = {
         ],
         "race_attrib": [r"state\.\(\*State\)\."],
     },
+    "C09": {
+        "level": "exploration",
+        "technique": "runtime monitoring: reference-model monitor (Go slice) in lock-step with the real block repository over generated operation lists, every query probed after every operation",
+        "level_text": "Generated operation lists over {add k, revert t, save, save+reload} with heights concentrated at the 1000-header file boundaries run against the real BlockRepository on a recording in-memory store (both delete-missing behaviours); after every operation ~80 query answers are compared with a Go slice, panics are caught, and a failing revert must leave every answer unchanged. The node's header-range query is checked the same way. Exploration: the sequence space is unbounded; sampling is dense where the code has special cases (file roll-over, unsaved newest file, cross-file revert).",
+        "level_note": "Trusted: verifkit.Store as the storage back end, the list model. Hash(-1)/Time(-1) may answer error, empty or the tip (only Header documents -1).",
+        "runs": [
+            {"pkg": "internal/storage", "test": "TestVerif_C09"},
+            {"pkg": "internal/spynode", "test": "TestVerif_C09Node", "shards": {"quick": 4, "thorough": 4}},
+        ],
+    },
 }
